@@ -266,3 +266,17 @@ more('C18', 'unrolled-view rule on per-key shape derivation', 'C18.o per-key sha
 more('C06', 'conflict-relation coherence of the merge primitive', 'C06.r the moment a component may merge into is bounded by qubits, measurement-vs-control keys both ways and measurement-vs-measurement of one key')
 more('C06', 'position-not-value rule on terminal measurements', 'C06.s consumers of find_terminal_measurements keep the moment index of every pair')
 more('C16', 'required exactness guard on narrowing stores', 'C16.w a value that may be an integer reaches a float32 field only under a float32 exactness test (or integers are taken by an earlier branch)')
+more('C02', 'helper-following order rule; deeper reference battery for stabilizer measurement', 'C02.h the inversion step may live in a helper that receives the mask; C13.g (shared) compares 120 sampled three-qubit tableaux')
+more('C04', 'numpy-scalar probe exponents for the kernel/matrix comparison', 'C04.b kernels agree with the matrices also for np.float32 / np.float64 exponents (where `(-1) ** e` is nan)')
+more('C05', 'tag forwarding of derived circuits; helper families of the bulk-placement idiom', 'C05.q every circuit derived from the receiver\'s moments passes tags=; C05.c / C05.p follow extracted placement helpers')
+more('C08', 'paired-sort rule on equality values', 'C08.v controls and their value columns are sorted as pairs')
+more('C12', 'simultaneous rewriting of all three key rewrites; moment-level binding order; scoped control keys; structural substitution',
+     'C12.j prefix / rescope of a multi-key condition are simultaneous; C12.r (extended) operation j of a moment may bind to what operations 0..j-1 measure; C12.s no subs(simultaneous=True) on conditions; '
+     'C12.t CircuitOperation._control_keys reads the scoped body')
+more('C13', 'larger sampled battery for the measurement interpreter', 'C13.g compares 120 sampled three-qubit tableaux (histories of up to 9 gates) besides the exhaustive two-qubit ones')
+more('C14', 'fresh arrays for value operators; interpretation of pow_pauli_combination', 'C14.p value-producing operators of BaseDensePauliString do not alias the mask; C14.q pow_pauli_combination rebuilds the matrix power on a coefficient grid')
+more('C16', 'alias-insensitive reader coverage', 'C16.a (generalised) a sub-message named by a local is read like the attribute chain it stands for')
+more('C18', 'dict accumulators in histograms; comprehension form of result concatenation; record helper following', 'C18.f a plain dict that is returned as the histogram is never merged with dict.update; C18.g / C18.b follow the comprehension / helper forms')
+more('C20', 'end-of-stream obligation', 'C20.c the normal end of the response loop is turned into a break (raise / publish by hand)')
+for _pid in ('C01', 'C02', 'C03', 'C04', 'C05', 'C06', 'C07', 'C08', 'C09', 'C10', 'C11', 'C12', 'C13', 'C14', 'C16', 'C17', 'C18', 'C19', 'C20'):
+    more(_pid, 'one-shot-iterable-in-loop rule', f'{_pid}.z_loop a parameter annotated Iterable / Iterator that is never materialised is not consumed inside a loop over something else')
